@@ -586,6 +586,68 @@ func run(c *mon.Ctx) {
 		}
 		c.Class(fmt.Sprintf("after-a-tracker/%02x>%02x", a.Type, b.Type))
 	})
+	// descriptors obtained by decoding one and the same section twice; one twin (or its signal) is then edited through
+	// setters, nothing is re-encoded: the relations are asked about the field values the getters report now
+	c.Floor("decoded_twins.edited", 1000)
+	c.Stream("decoded-twins", c.N(3000, 2000000), func(i int, r *gen.Rand) {
+		s := ref.GenSig(r, false)
+		s.Cmd, s.TSHas, s.TSPTS, s.PTSAdj = 0x06, true, uint64(1000+1000*r.Intn(2)), 0
+		s.Descs = nil
+		for k := 1 + r.Intn(3); k > 0; k-- {
+			d := ref.GenSegDesc(r, false)
+			d.Cancel = false
+			d.Type = r.PickByte([]byte{0x34, 0x36, 0x35, 0x30, 0x10, 0x11, 0x40, 0x41})
+			d.Event = uint32(1 + r.Intn(2))
+			s.Descs = append(s.Descs, d)
+		}
+		pay := s.Payload()
+		x1, e1 := scte35.NewSCTE35(append([]byte{}, pay...))
+		x2, e2 := scte35.NewSCTE35(append([]byte{}, pay...))
+		if e1 != nil || e2 != nil || len(x1.Descriptors()) != len(s.Descs) || len(x2.Descriptors()) != len(s.Descs) {
+			return // (decoding is C08's business)
+		}
+		k := r.Intn(len(s.Descs))
+		d1, d2 := x1.Descriptors()[k], x2.Descriptors()[k]
+		check := func(when string) bool {
+			a, b := seen(d1, attrs{}), seen(d2, attrs{})
+			c.Eval(3)
+			eq := a.HasPTS && b.HasPTS && a.Type == b.Type && a.PTS == b.PTS && a.Event == b.Event && a.SegNum == b.SegNum && a.SegExp == b.SegExp && a.HasSub == b.HasSub && (!a.HasSub || a.SubNum == b.SubNum && a.SubExp == b.SubExp)
+			if d1.Equal(d2) != eq || d2.Equal(d1) != eq {
+				c.Fail("equal:decoded-twins", fmt.Sprintf("%s: Equal = %v / %v, by the definition over the values the getters report it is %v", when, d1.Equal(d2), d2.Equal(d1), eq), wit{A: a, B: b, Detail: when})
+				return false
+			}
+			want := ref.CanClose(a.Type, b.Type, a.Event == b.Event, a.PTS == b.PTS, a.SegNum == a.SegExp)
+			if d1.CanClose(d2) != want {
+				c.Fail("canclose:decoded-twins", fmt.Sprintf("%s: CanClose = %v, the documented table says %v", when, d1.CanClose(d2), want), wit{A: a, B: b, Detail: when})
+				return false
+			}
+			return true
+		}
+		if !check("two decodes of one section") {
+			return
+		}
+		how := ""
+		switch r.Intn(5) {
+		case 0:
+			d2.SetEventID(d2.EventID() + 1)
+			how = "SetEventID on one twin"
+		case 1:
+			d2.SetSegmentNumber(d2.SegmentNumber() + 1)
+			how = "SetSegmentNumber on one twin"
+		case 2:
+			x2.SetPTS(x2.PTS() + 90000)
+			how = "SetPTS on one twin's signal"
+		case 3:
+			d1.SetTypeID(scte35.SegDescType(r.PickByte([]byte{0x34, 0x36, 0x35, 0x37, 0x30, 0x10})))
+			how = "SetTypeID on the other twin"
+		default:
+			d2.SetSegmentsExpected(d2.SegmentsExpected() + 1)
+			how = "SetSegmentsExpected on one twin"
+		}
+		c.Count("decoded_twins.edited")
+		check("after " + how + " (no re-encoding)")
+		c.Class("decoded-twins/" + how)
+	})
 	// nil argument: never equal
 	a := mk(attrs{Type: 0x30, Event: 1, PTS: 5, HasPTS: true})
 	if a.Equal(nil) {
